@@ -11,9 +11,12 @@ from props import progs
 ID = "C10"
 MODULE = "PotasscoVerif.Props.C10"
 THEOREMS = ["PotasscoVerif.C10.C10_tok", "PotasscoVerif.C10.C10_int", "PotasscoVerif.C10.C10_atom_spellings", "PotasscoVerif.C10.C10_lit", "PotasscoVerif.C10.C10_lits",
-            "PotasscoVerif.C10.C10_layout_irrelevant_token"]
-PARTIAL = {"C10_read_pp (whole programs)": "the token/atom/literal/literal-list inverses are proved for every filler and spelling; their composition over whole statements and "
-           "programs (rules, aggregates, directives, steps) is decided by correspondence and the printer oracle"}
+            "PotasscoVerif.C10.C10_layout_irrelevant_token", "PotasscoVerif.C10.C10_atoms", "PotasscoVerif.C10.C10_rule", "PotasscoVerif.C10.stmtLoop_step",
+            "PotasscoVerif.C10.C10_read_program"]
+EXTRA_MODULES = ["PotasscoVerif.Props.C10b"]
+PARTIAL = {"C10_read_pp for aggregates, #minimize, #output, #heuristic, comments and several steps": "C10_read_program proves the whole-program statement for one step of facts, integrity constraints, "
+           "disjunctive and choice rules with normal bodies, #assume, #project, #external (all values) and #edge, for every filler, atom spelling and admissible list separator; statements with aggregates "
+           "(weight bodies, #minimize), #output terms, #heuristic, comments between statements and #incremental/#step programs are decided by correspondence and the printer oracle"}
 BSIZES = (16, 17, 4096)
 RULE = ("programs of 0..14 statements over all statement kinds of the input syntax (facts, disjunctive/choice rules, normal and sum bodies, #minimize, #project, #output with "
         "identifier/function/quoted names, #external with all values, #assume, #heuristic with all modifiers, #edge), 1..4 steps with #incremental/#step, atoms from 1..26, small, "
@@ -23,11 +26,14 @@ RULE = ("programs of 0..14 statements over all statement kinds of the input synt
 TRUSTED = ["std::islower/isalnum in the C locale"]
 ASSUMPTIONS = ["the text contains no NUL byte", "output names are expressible in the input syntax: identifier with optional argument list, or quoted string not starting with a blank",
                "BUF_SIZE >= 12 (longest keyword; smaller buffers hit the 'Token too long' assertion by design)"]
-TECHNIQUE = "Lean 4 theorems on the reader model (token, integer, atom-spelling, literal and literal-list inverses for every filler) + differential correspondence with the real AspifTextInput at three buffer sizes + printer oracle"
+TECHNIQUE = "Lean 4 theorems on the reader model (whole programs of rules with normal bodies and #assume/#project/#external/#edge read back exactly for every filler and spelling; token, integer, atom, literal inverses) + differential correspondence with the real AspifTextInput at three buffer sizes + printer oracle"
 LEVEL_TEXT = ("For EVERY filler (any run of blanks/tabs/CR/LF) and every stream state: C10_tok (a keyword or punctuation followed by any filler is matched and the filler skipped), C10_int, "
               "C10_atom_spellings (each of the spellings letter, x<n>, x_<n> of an atom 1..2^31-1 followed by any filler yields that atom), C10_lit ('not ' + filler + atom), C10_lits "
               "(comma-separated literal lists of any length with fillers everywhere), C10_layout_irrelevant_token (two fillers give the same value and the same remaining input). "
-              "Whole statements/programs/steps: model == real reader on every text (also damaged ones, incl. the reported line) and printer oracle on the implementation.")
+              "Props/C10b.lean: C10_atoms (atom lists with any admissible separator), C10_rule (facts, constraints, disjunctive/choice rules with normal bodies), the directive lemmas and stmtLoop_step, and "
+              "C10_read_program: a program (one step) of such rules and of #assume, #project, #external, #edge statements, printed with ANY filler at every optional position and ANY spelling of every atom, "
+              "is read as exactly the corresponding calls in order, without error. Aggregates, #minimize, #output, #heuristic, comments and several steps: model == real reader on every text "
+              "(also damaged ones, incl. the reported line) and printer oracle on the implementation.")
 LEVEL_NOTE = ("Partial proof + correspondence (~5k quick / 120k thorough texts × 2 read modes × 3 buffer sizes) + printer oracle. Trusted: Lean kernel+axioms, C09 for the stream, "
               "islower/isalnum, harness, generator/oracle in props/c10.py.")
 
